@@ -3,6 +3,7 @@ package main
 import (
 	"fmt"
 	"go/ast"
+	"go/constant"
 	"go/token"
 	"go/types"
 	"strings"
@@ -189,6 +190,59 @@ func checkConstIndexes(p *Prog, r *Result, pkg *packages.Package, rel string, ru
 					}
 					return true
 				})
+			}
+			// x[i-K] with i the key of a range over x: in range above as soon as i >= K, which a test of i establishes
+			if !guarded && kind == "offset" {
+				if be, ok := idx.(*ast.BinaryExpr); ok && be.Op == token.SUB {
+					if id, ok := ast.Unparen(be.X).(*ast.Ident); ok {
+						iobj := info.ObjectOf(id)
+						isKey := false
+						ast.Inspect(fd.Body, func(n ast.Node) bool {
+							rs, ok := n.(*ast.RangeStmt)
+							if !ok || rs.Key == nil || !(rs.Body.Pos() <= ix.Pos() && ix.End() <= rs.Body.End()) {
+								return true
+							}
+							if kid, ok := rs.Key.(*ast.Ident); ok && info.ObjectOf(kid) == iobj && exprString(rs.X) == subject {
+								isKey = true
+							}
+							return true
+						})
+						kv, _ := constant.Int64Val(constant.ToInt(info.Types[be.Y].Value))
+						if isKey && kv >= 1 {
+							b2 := blockContaining(g, ix)
+							guarded = b2 != nil && underEdges(g, b2, func(e *FEdge) bool {
+								ce, ok := ast.Unparen(e.Cond).(*ast.BinaryExpr)
+								if !ok || e.Tag != nil {
+									return false
+								}
+								cid, ok := ast.Unparen(ce.X).(*ast.Ident)
+								if !ok || info.ObjectOf(cid) != iobj {
+									return false
+								}
+								tv, has := info.Types[ce.Y]
+								if !has || tv.Value == nil {
+									return false
+								}
+								c, _ := constant.Int64Val(constant.ToInt(tv.Value))
+								switch ce.Op {
+								case token.EQL:
+									return !e.Pol && c == 0 && kv == 1
+								case token.NEQ:
+									return e.Pol && c == 0 && kv == 1
+								case token.GTR:
+									return e.Pol && c+1 >= kv
+								case token.GEQ:
+									return e.Pol && c >= kv
+								case token.LSS:
+									return !e.Pol && c >= kv
+								case token.LEQ:
+									return !e.Pol && c+1 >= kv
+								}
+								return false
+							})
+						}
+					}
+				}
 			}
 			// a range over the same value bounds x[i+1]-style accesses only with a test; x[i-1] needs one too
 			if !guarded {
